@@ -1,27 +1,46 @@
 package main
 
 import (
+	"fmt"
 	"go/ast"
 	"go/token"
+	"regexp"
+	"sort"
 	"strings"
 )
 
 // C16 — facts the gRPC model silently depends on, read off proxy/grpc_handler.go and main.go.
+//
+// The facts pin MEANING, not spelling: the source is normalised first (named constants inlined, literal
+// concatenations folded, switch -> if chains: x.UseNormalizedAST), every anchored function is then walked in
+// source order by `c16walk`, which
+//   - follows calls to unexported functions and methods of the package into their bodies (depth <= 4), binding
+//     the callee's receiver and parameters to the canonical text of the caller's arguments — extracting or
+//     inlining a helper does not change the event list, and values are tracked through helpers;
+//   - names variables by ROLE: receiver -> recv, i-th parameter -> p<i>, parameters of a function literal ->
+//     c<i>, a local defined from one expression -> that expression (substituted), locals defined from a
+//     multi-value call -> <callee>#<i>, from a composite literal -> lit#<Type>, from a constructor-like helper ->
+//     made#<ResultType>, range variables -> rk<n>/rv<n>; the result of the route lookup -> looked / lookedErr;
+//   - records EVENTS (calls, stores, returns, composite literals, go/defer) with the list of conditions that
+//     guard them; an `if c { …; return/continue }` contributes `!(c)` to everything that follows it in the
+//     block, so early exits and else-branches (and switches) read the same.
+//
+// Obligations in Props/C16Facts.lean are stated over filtered event lists.
 func init() {
 	register("C16", func(x *X) error {
+		x.UseNormalizedAST()
 		const dir = "proxy"
 
-		// --- getDestinationHostFromMetadata: md["dsthost"], exactly one value -------------------------------
+		// --- getDestinationHostFromMetadata: the alternatives of its result ---------------------------------
 		if fd := x.funcDecl(dir, "GrpcProxyInterceptor", "getDestinationHostFromMetadata"); fd != nil {
-			key, cond := "", ""
+			w := newC16Walk(x, dir)
+			w.root(fd)
+			key := ""
 			ast.Inspect(fd.Body, func(n ast.Node) bool {
-				switch v := n.(type) {
-				case *ast.IndexExpr:
-					if s, ok := x.strLit(v.Index); ok {
+				if ie, ok := n.(*ast.IndexExpr); ok {
+					if s, ok := x.strLit(ie.Index); ok {
 						key = s
 					}
-				case *ast.IfStmt:
-					cond = x.src(v.Cond)
 				}
 				return true
 			})
@@ -29,310 +48,225 @@ func init() {
 				x.fail("getDestinationHostFromMetadata: metadata key literal not found")
 			}
 			x.defStr("dsthostKey", key)
-			x.defStr("dsthostCond", cond)
-		}
-
-		// --- Stream: lookup first; nil target ⇒ NotFound and return, before the handler is called -----------
-		if fd := x.funcDecl(dir, "GrpcProxyInterceptor", "Stream"); fd != nil {
-			idxLookup, idxNil, idxHandler := -1, -1, -1
-			nilCode, nilMsg, nilReturns := "", "", false
-			errCode := ""
-			lookupArgs := ""
-			for i, st := range fd.Body.List {
-				switch v := st.(type) {
-				case *ast.AssignStmt:
-					for _, c := range x.calls(v, "g.lookup") {
-						if idxLookup < 0 {
-							idxLookup = i
-							lookupArgs = argList(x, c)
-						}
+			// every value the function can return, with the conditions under which it is chosen
+			// (a value stored into a named result is overridden by a later store under further conditions:
+			// `r = d; if c { r = v }; return` reads `[c] v`, `[!(c)] d`, like `if c { return v }; return d`)
+			results := namedResults(fd)
+			var rs []ev
+			override := func(g []string) {
+				for i := range rs {
+					if p := rs[i].guards; len(p) < len(g) && strings.Join(g[:len(p)], "\x00") == strings.Join(p, "\x00") {
+						rs[i].guards = append(append([]string(nil), p...), "!("+g[len(p)]+")")
 					}
-					if len(x.calls(v, "handler")) > 0 && idxHandler < 0 {
-						idxHandler = i
-					}
-				case *ast.IfStmt:
-					cond := x.src(v.Cond)
-					ret := lastReturn(v.Body)
-					if cond == "target == nil" {
-						idxNil = i
-						if ret != nil && len(ret.Results) == 1 {
-							nilReturns = true
-							for _, c := range x.calls(ret, "status.Error") {
-								if len(c.Args) == 2 {
-									nilCode = x.src(c.Args[0])
-									nilMsg, _ = x.strLit(c.Args[1])
-								}
-							}
-						}
-						if len(x.calls(v.Body, "handler")) > 0 {
-							x.fail("Stream: the nil-target branch calls the handler")
-						}
-					}
-					if cond == "err != nil" && ret != nil {
-						for _, c := range x.calls(ret, "status.Error") {
-							if len(c.Args) == 2 {
-								errCode = x.src(c.Args[0])
-							}
+				}
+			}
+			for _, e := range w.evs {
+				switch {
+				case e.kind == "ret" && e.depth == 0 && e.text != "":
+					rs = append(rs, ev{kind: "ret", text: e.text, guards: e.guards})
+				case e.kind == "store" && e.depth == 0:
+					for _, r := range results {
+						if strings.HasPrefix(e.text, r+" = ") {
+							override(e.guards)
+							rs = append(rs, ev{kind: "ret", text: strings.TrimPrefix(e.text, r+" = "), guards: e.guards})
 						}
 					}
 				}
 			}
-			x.defStr("streamLookupArgs", lookupArgs)
-			x.defBool("streamOrderLookupNilHandler", idxLookup >= 0 && idxLookup < idxNil && idxNil < idxHandler)
-			x.defBool("streamNilTargetReturns", nilReturns)
-			x.defStr("streamNilTargetCode", nilCode)
-			x.defStr("streamNilTargetMessage", nilMsg)
-			x.defStr("streamLookupErrorCode", errCode)
-			x.defNat("streamHandlerCalls", uint64(len(x.calls(fd.Body, "handler"))))
+			var alts []string
+			for _, r := range rs {
+				alts = append(alts, r.line())
+			}
+			sort.Strings(alts)
+			x.defStrList("dsthostResults", alts)
 		}
 
-		// --- lookup: the synthetic request and the one call into the table -----------------------------------
-		if fd := x.funcDecl(dir, "GrpcProxyInterceptor", "lookup"); fd != nil {
-			assigns := map[string]string{}
-			ast.Inspect(fd.Body, func(n ast.Node) bool {
-				if a, ok := n.(*ast.AssignStmt); ok && len(a.Lhs) >= 1 && len(a.Rhs) == 1 {
-					if id, ok := a.Lhs[0].(*ast.Ident); ok {
-						assigns[id.Name] = x.src(a.Rhs[0])
-					}
+		// --- Stream (with lookup inlined): table lookup, status returns, the one handler call ----------------
+		if fd := x.funcDecl(dir, "GrpcProxyInterceptor", "Stream"); fd != nil {
+			w := newC16Walk(x, dir)
+			w.root(fd)
+			var flow, req, parse []string
+			handlerCalls := 0
+			for _, e := range w.evs {
+				switch {
+				case e.kind == "call" && strings.HasSuffix(e.callee, ".Lookup"):
+					flow = append(flow, "call "+e.text)
+				case e.kind == "call" && e.callee == "p3":
+					handlerCalls++
+					flow = append(flow, e.withGuards("call p3"))
+				case e.kind == "ret" && e.depth == 0 && strings.HasPrefix(e.text, "status.Error"):
+					flow = append(flow, e.line())
+				case e.kind == "lit" && strings.HasPrefix(e.text, "lit http.Request"):
+					// Host and URL decide the routing; how the header map is filled does not
+					req = append(req, c16headerVal.ReplaceAllString(e.text, "Header=_"))
+				case e.kind == "call" && (e.callee == "url.ParseRequestURI" || e.callee == "metadata.FromIncomingContext"):
+					parse = append(parse, "call "+e.text)
+				case e.kind == "store" && strings.Contains(e.text, ".TLS"):
+					req = append(req, "store "+e.text)
 				}
-				return true
-			})
-			host, urlf := "", ""
-			var reqFields []string
-			ast.Inspect(fd.Body, func(n ast.Node) bool {
-				cl, ok := n.(*ast.CompositeLit)
-				if !ok || x.src(cl.Type) != "http.Request" {
-					return true
-				}
-				for _, el := range cl.Elts {
-					if kv, ok := el.(*ast.KeyValueExpr); ok {
-						reqFields = append(reqFields, x.src(kv.Key))
-						switch x.src(kv.Key) {
-						case "Host":
-							host = x.src(kv.Value)
-						case "URL":
-							urlf = x.src(kv.Value)
-						}
-					}
-				}
-				return true
-			})
-			// the fields the synthetic request sets: no TLS, so C03 sees a plain request
-			x.defStrList("reqFields", reqFields)
-			x.defStr("reqHostInit", assigns[host])
-			x.defStr("reqURLInit", assigns[urlf])
-			var lookups []string
-			ast.Inspect(fd.Body, func(n ast.Node) bool {
-				if c, ok := n.(*ast.CallExpr); ok {
-					if sel, ok := c.Fun.(*ast.SelectorExpr); ok && sel.Sel.Name == "Lookup" {
-						lookups = append(lookups, x.src(sel.X)+".Lookup("+argList(x, c)+")")
-					}
-				}
-				return true
-			})
-			x.defStrList("tableLookupCalls", lookups)
-			x.defStr("lookupPicker", assigns["pick"])
-			x.defStr("lookupMatcher", assigns["match"])
+			}
+			x.defStrList("streamFlow", flow)
+			x.defNat("streamHandlerCalls", uint64(handlerCalls))
+			x.defStrList("lookupRequest", req)
+			x.defStrList("lookupInputs", parse)
 		}
 
 		// --- director: metadata copied to the outgoing context; connection from the pool for the ctx target --
 		if fd := x.funcDecl(dir, "", "GetGRPCDirector"); fd != nil {
-			out := ""
-			for _, c := range x.calls(fd.Body, "metadata.NewOutgoingContext") {
-				out = argList(x, c)
-			}
-			x.defStr("directorOutgoingContextArgs", out)
-			get := ""
-			for _, c := range x.calls(fd.Body, "connectionPool.Get") {
-				get = argList(x, c)
-			}
-			x.defStr("directorPoolGetArgs", get)
-			tgt := ""
-			ast.Inspect(fd.Body, func(n ast.Node) bool {
-				if a, ok := n.(*ast.AssignStmt); ok && len(a.Lhs) == 2 && x.src(a.Lhs[0]) == "target" {
-					tgt = x.src(a.Rhs[0])
+			w := newC16Walk(x, dir)
+			w.root(fd)
+			var calls []string
+			for _, e := range w.evs {
+				if (e.kind == "call" || e.kind == "go") && e.inClosure && !isLogCall(e.callee) {
+					calls = append(calls, e.kind+" "+e.text)
 				}
-				return true
-			})
-			x.defStr("directorTargetInit", tgt)
-			x.defStr("directorPoolInit", func() string {
-				s := ""
-				ast.Inspect(fd.Body, func(n ast.Node) bool {
-					if a, ok := n.(*ast.AssignStmt); ok && x.src(a.Lhs[0]) == "connectionPool" {
-						s = x.src(a.Rhs[0])
-					}
-					return true
-				})
-				return s
-			}())
+			}
+			x.defStrList("directorCalls", calls)
 		}
 		if fd := x.funcDecl(dir, "", "makeGRPCTargetKey"); fd != nil {
-			if r := lastReturn(fd.Body); r != nil && len(r.Results) == 1 {
-				x.defStr("targetKeyExpr", x.src(r.Results[0]))
-			} else {
-				x.fail("makeGRPCTargetKey: no single return")
-			}
+			w := newC16Walk(x, dir)
+			w.root(fd)
+			x.defStrList("targetKeyReturns", w.lines(func(e ev) bool { return e.kind == "ret" && e.depth == 0 }))
 		}
 
 		// --- the pool ----------------------------------------------------------------------------------------
-		lockCalls := func(fd *ast.FuncDecl) []string {
-			var out []string
-			ast.Inspect(fd.Body, func(n ast.Node) bool {
-				if c, ok := n.(*ast.CallExpr); ok {
-					if s := x.src(c.Fun); strings.HasPrefix(s, "p.lock.") {
-						out = append(out, strings.TrimPrefix(s, "p.lock."))
-					}
-				}
+		maxRetDepth := 0
+		poolEvent := func(e ev) bool {
+			switch e.kind {
+			case "call", "defer", "go":
+				c := e.callee
+				return strings.HasPrefix(c, "recv.lock.") || c == "grpc.DialContext" || strings.HasSuffix(c, ".Set") ||
+					strings.HasSuffix(c, ".Close") || c == "delete" || c == "time.Sleep" || c == "route.GetTable" ||
+					strings.HasSuffix(c, ".WaitForStateChange") || strings.HasSuffix(c, ".GetState")
+			case "ret":
+				// returns of the function itself, and of the (inlined) miss path of Get: those that hand back what was dialled
+				return !e.inClosure && (e.depth == 0 || (e.depth <= maxRetDepth && strings.Contains(e.text, "DialContext#")))
+			case "store":
+				return strings.HasPrefix(e.text, "recv.connections[")
+			case "range":
 				return true
-			})
-			return out
+			}
+			return false
 		}
 		if fd := x.funcDecl(dir, "grpcConnectionPool", "Get"); fd != nil {
-			x.defStrList("getLockCalls", lockCalls(fd))
-			cond := ""
-			ast.Inspect(fd.Body, func(n ast.Node) bool {
-				if s, ok := n.(*ast.IfStmt); ok {
-					cond = x.src(s.Cond)
-				}
-				return true
-			})
-			x.defStr("getHitCond", cond)
-			x.defNat("getNewConnectionCalls", uint64(len(x.calls(fd.Body, "p.newConnection"))))
+			w := newC16Walk(x, dir)
+			w.dialArgs = 2 // context and address; the options are built by code the model does not depend on
+			w.root(fd)
+			maxRetDepth = 1 // the miss path returns through the helper that dials and stores
+			x.defStrList("poolGet", w.lines(poolEvent))
+			maxRetDepth = 0
 		}
 		if fd := x.funcDecl(dir, "grpcConnectionPool", "Set"); fd != nil {
-			x.defStrList("setLockCalls", lockCalls(fd))
-			keep := ""
-			ast.Inspect(fd.Body, func(n ast.Node) bool {
-				if s, ok := n.(*ast.IfStmt); ok && len(x.calls(s.Body, "conn.Close")) == 1 {
-					keep = x.src(s.Cond)
-				}
-				return true
-			})
-			x.defStr("setKeepsPooledCond", keep)
-		}
-		if fd := x.funcDecl(dir, "grpcConnectionPool", "newConnection"); fd != nil {
-			x.defNat("newConnectionDials", uint64(len(x.calls(fd.Body, "grpc.DialContext"))))
-			x.defNat("newConnectionSets", uint64(len(x.calls(fd.Body, "p.Set"))))
-			for _, c := range x.calls(fd.Body, "grpc.DialContext") {
-				if len(c.Args) >= 2 {
-					x.defStr("dialTarget", x.src(c.Args[1]))
-				}
-			}
+			w := newC16Walk(x, dir)
+			w.root(fd)
+			x.defStrList("poolSet", w.lines(poolEvent))
 		}
 		if fd := x.funcDecl(dir, "grpcConnectionPool", "cleanup"); fd != nil {
-			x.defStrList("cleanupLockCalls", lockCalls(fd))
-			var conds []string
-			ast.Inspect(fd.Body, func(n ast.Node) bool {
-				if s, ok := n.(*ast.IfStmt); ok && len(x.calls(s.Body, "delete")) > 0 {
-					conds = append(conds, x.src(s.Cond))
-				}
-				return true
-			})
-			x.defStrList("cleanupDeleteConds", conds)
-			x.defNat("cleanupCloses", uint64(len(x.calls(fd.Body, "cs.Close"))))
-			sleep := ""
-			for _, c := range x.calls(fd.Body, "time.Sleep") {
-				sleep = argList(x, c)
-			}
-			x.defStr("cleanupSleepArg", sleep)
-			tbl := ""
-			ast.Inspect(fd.Body, func(n ast.Node) bool {
-				if a, ok := n.(*ast.AssignStmt); ok && x.src(a.Lhs[0]) == "table" {
-					tbl = x.src(a.Rhs[0])
-				}
-				return true
-			})
-			x.defStr("cleanupTableInit", tbl)
+			w := newC16Walk(x, dir)
+			w.root(fd)
+			x.defStrList("poolCleanup", w.lines(poolEvent))
 		}
 		if fd := x.funcDecl(dir, "", "hasTarget"); fd != nil {
-			cmp := ""
-			ast.Inspect(fd.Body, func(n ast.Node) bool {
-				if s, ok := n.(*ast.IfStmt); ok {
-					cmp = x.src(s.Cond)
-				}
-				return true
-			})
-			x.defStr("hasTargetCond", cmp)
+			w := newC16Walk(x, dir)
+			w.root(fd)
+			x.defStrList("hasTargetReturns", w.lines(func(e ev) bool { return (e.kind == "ret" && e.depth == 0) || e.kind == "range" }))
 		}
-		if fd := x.funcDecl(dir, "", "newGrpcConnectionPool"); fd != nil {
-			secs := uint64(0)
-			found := false
-			ast.Inspect(fd.Body, func(n ast.Node) bool {
-				kv, ok := n.(*ast.KeyValueExpr)
-				if !ok || x.src(kv.Key) != "cleanupInterval" {
-					return true
-				}
-				if v, ok := durationSeconds(x, kv.Value); ok {
-					secs, found = v, true
-				}
-				return true
-			})
-			if !found {
-				x.fail("newGrpcConnectionPool: cleanupInterval is not <n> * time.Second")
-			}
-			x.defNat("cleanupIntervalSeconds", secs)
+		// the constructor of the pool, found from where it is used (the director), not by its name
+		if fd := x.funcDecl(dir, "", "GetGRPCDirector"); fd != nil {
+			w := newC16Walk(x, dir)
+			w.root(fd)
+			secs, found := uint64(0), false
 			starts := 0
-			ast.Inspect(fd.Body, func(n ast.Node) bool {
-				if g, ok := n.(*ast.GoStmt); ok && x.src(g.Call.Fun) == "cp.cleanup" {
+			for _, e := range w.evs {
+				if e.kind == "lit" && strings.HasPrefix(e.text, "lit grpcConnectionPool") && e.node != nil {
+					for _, el := range e.node.Elts {
+						kv, ok := el.(*ast.KeyValueExpr)
+						if !ok || x.src(kv.Key) != "cleanupInterval" {
+							continue
+						}
+						if v, ok := durationSeconds(x, dir, kv.Value); ok {
+							secs, found = v, true
+						}
+					}
+				}
+				if e.kind == "go" && strings.HasSuffix(e.callee, ".cleanup") {
 					starts++
 				}
-				return true
-			})
+			}
+			if !found {
+				x.fail("pool constructor: cleanupInterval is not <n> * time.Second")
+			}
+			x.defNat("cleanupIntervalSeconds", secs)
 			x.defNat("cleanupGoroutinesStarted", uint64(starts))
 		}
 
 		// --- main.newGrpcProxy: what the harness replicates -------------------------------------------------
 		if fd := x.funcDecl(".", "", "newGrpcProxy"); fd != nil {
-			var opts []string
-			if r := lastReturn(fd.Body); r != nil && len(r.Results) == 1 {
-				if cl, ok := r.Results[0].(*ast.CompositeLit); ok {
-					for _, el := range cl.Elts {
-						opts = append(opts, x.src(el))
-					}
+			w := newC16Walk(x, ".")
+			w.root(fd)
+			var opts, lits []string
+			for _, e := range w.evs {
+				if e.kind == "call" && strings.HasPrefix(e.callee, "grpc.") && e.callee != "grpc.NewServer" {
+					opts = append(opts, e.withGuards(e.text))
+				}
+				if e.kind == "lit" && strings.HasPrefix(e.text, "lit proxy.GrpcProxyInterceptor") {
+					lits = append(lits, e.text)
 				}
 			}
+			sort.Strings(opts)
 			x.defStrList("grpcServerOptions", opts)
-			h := ""
-			ast.Inspect(fd.Body, func(n ast.Node) bool {
-				if a, ok := n.(*ast.AssignStmt); ok && x.src(a.Lhs[0]) == "handler" {
-					h = x.src(a.Rhs[0])
-				}
-				return true
-			})
-			x.defStr("grpcHandlerInit", h)
+			x.defStrList("grpcInterceptorLit", lits)
 		}
 		if fd := x.funcDecl(dir, "", "ListenAndServeGRPC"); fd != nil {
-			n := ""
-			for _, c := range x.calls(fd.Body, "grpc.NewServer") {
-				n = argList(x, c)
-				if c.Ellipsis != token.NoPos {
-					n += "..."
-				}
-			}
-			x.defStr("grpcNewServerArgs", n)
+			w := newC16Walk(x, dir)
+			w.root(fd)
+			x.defStrList("grpcNewServer", w.lines(func(e ev) bool { return e.kind == "call" && e.callee == "grpc.NewServer" }))
 		}
 		return nil
 	})
 }
 
-func argList(x *X, c *ast.CallExpr) string {
-	parts := make([]string, len(c.Args))
-	for i, a := range c.Args {
-		parts[i] = x.src(a)
-	}
-	return strings.Join(parts, ", ")
+func isLogCall(c string) bool {
+	return strings.HasPrefix(c, "log.") || strings.HasPrefix(c, "fmt.")
 }
 
-func lastReturn(b *ast.BlockStmt) *ast.ReturnStmt {
-	if b == nil || len(b.List) == 0 {
-		return nil
+func namedResults(fd *ast.FuncDecl) []string {
+	var out []string
+	if fd.Type.Results != nil {
+		for _, f := range fd.Type.Results.List {
+			for _, n := range f.Names {
+				out = append(out, n.Name)
+			}
+		}
 	}
-	r, _ := b.List[len(b.List)-1].(*ast.ReturnStmt)
-	return r
+	return out
 }
 
-// durationSeconds evaluates `time.Second * n` / `n * time.Second`.
-func durationSeconds(x *X, e ast.Expr) (uint64, bool) {
+// durationSeconds evaluates `time.Second * n` / `n * time.Second`, also through a package-level constant.
+func durationSeconds(x *X, dir string, e ast.Expr) (uint64, bool) {
+	if id, ok := e.(*ast.Ident); ok {
+		for _, f := range x.files(dir) {
+			for _, d := range f.Decls {
+				gd, ok := d.(*ast.GenDecl)
+				if !ok {
+					continue
+				}
+				for _, s := range gd.Specs {
+					if vs, ok := s.(*ast.ValueSpec); ok {
+						for i, n := range vs.Names {
+							if n.Name == id.Name && i < len(vs.Values) {
+								return durationSeconds(x, dir, vs.Values[i])
+							}
+						}
+					}
+				}
+			}
+		}
+		return 0, false
+	}
+	if p, ok := e.(*ast.ParenExpr); ok {
+		return durationSeconds(x, dir, p.X)
+	}
 	b, ok := e.(*ast.BinaryExpr)
 	if !ok || b.Op != token.MUL {
 		return 0, false
@@ -358,4 +292,615 @@ func durationSeconds(x *X, e ast.Expr) (uint64, bool) {
 		return lit(b.X)
 	}
 	return 0, false
+}
+
+// ---- the event walker ------------------------------------------------------------------------------------
+
+type ev struct {
+	kind      string // call | go | defer | ret | store | lit | range
+	callee    string
+	text      string
+	guards    []string
+	depth     int  // 0 = the root function, > 0 inside an inlined helper
+	inClosure bool // inside a function literal
+	node      *ast.CompositeLit
+}
+
+func (e ev) withGuards(s string) string {
+	if len(e.guards) == 0 {
+		return s
+	}
+	return "[" + strings.Join(e.guards, " && ") + "] " + s
+}
+
+func (e ev) line() string {
+	s := e.kind
+	if e.text != "" {
+		s += " " + e.text
+	}
+	return e.withGuards(s)
+}
+
+type c16walk struct {
+	x        *X
+	dir      string
+	evs      []ev
+	scopes   []map[string]string
+	guards   []string
+	depth    int
+	closure  int
+	onStack  map[string]bool
+	nclo     int
+	nrange   int
+	dialArgs int
+}
+
+func newC16Walk(x *X, dir string) *c16walk {
+	return &c16walk{x: x, dir: dir, onStack: map[string]bool{}}
+}
+
+// roles: the result of the route lookup is one thing whether it comes from the interceptor's own helper or
+// from Table.Lookup directly
+var c16roles = map[string]string{"lookup": "looked", "Lookup": "looked"}
+
+func (w *c16walk) lines(keep func(ev) bool) []string {
+	out := []string{}
+	for _, e := range w.evs {
+		if keep(e) {
+			out = append(out, e.line())
+		}
+	}
+	return out
+}
+
+func (w *c16walk) cur() map[string]string { return w.scopes[len(w.scopes)-1] }
+
+func (w *c16walk) emit(e ev) {
+	e.guards = append([]string(nil), w.guards...)
+	e.depth = w.depth
+	e.inClosure = w.closure > 0
+	w.evs = append(w.evs, e)
+}
+
+func (w *c16walk) root(fd *ast.FuncDecl) {
+	sc := map[string]string{}
+	if fd.Recv != nil && len(fd.Recv.List) == 1 && len(fd.Recv.List[0].Names) == 1 {
+		sc[fd.Recv.List[0].Names[0].Name] = "recv"
+	}
+	i := 0
+	if fd.Type.Params != nil {
+		for _, p := range fd.Type.Params.List {
+			for _, n := range p.Names {
+				sc[n.Name] = fmt.Sprintf("p%d", i)
+				i++
+			}
+			if len(p.Names) == 0 {
+				i++
+			}
+		}
+	}
+	w.scopes = append(w.scopes, sc)
+	w.onStack[fd.Name.Name] = true
+	w.block(fd.Body)
+	delete(w.onStack, fd.Name.Name)
+	w.scopes = w.scopes[:len(w.scopes)-1]
+}
+
+var c16headerVal = regexp.MustCompile(`Header=[^;}]*`)
+
+var c16emptyKey = regexp.MustCompile(`\b[a-z][A-Za-z0-9_]*\{\}`)
+
+// canon prints a node with the identifiers of the current scope replaced by their role names.
+func (w *c16walk) canon(n ast.Node) string {
+	if n == nil {
+		return ""
+	}
+	ren := w.cur()
+	saved := map[*ast.Ident]string{}
+	var visit func(m ast.Node) bool
+	rename := func(id *ast.Ident) {
+		if to, ok := ren[id.Name]; ok && (id.Obj == nil || id.Obj.Kind == ast.Var) {
+			if _, done := saved[id]; !done {
+				saved[id] = id.Name
+				id.Name = to
+			}
+		}
+	}
+	visit = func(m ast.Node) bool {
+		switch v := m.(type) {
+		case *ast.Ident:
+			rename(v)
+		case *ast.SelectorExpr:
+			ast.Inspect(v.X, visit)
+			return false
+		case *ast.KeyValueExpr:
+			if _, isIdent := v.Key.(*ast.Ident); !isIdent {
+				ast.Inspect(v.Key, visit)
+			}
+			ast.Inspect(v.Value, visit)
+			return false
+		case *ast.FuncLit:
+			return false
+		}
+		return true
+	}
+	ast.Inspect(n, visit)
+	s := w.x.src(n)
+	for id, old := range saved {
+		id.Name = old
+	}
+	// an empty struct literal of an unexported type is a context key: its name does not matter
+	return c16emptyKey.ReplaceAllString(s, "key{}")
+}
+
+func lastName(e ast.Expr) string {
+	switch f := e.(type) {
+	case *ast.Ident:
+		return f.Name
+	case *ast.SelectorExpr:
+		return f.Sel.Name
+	case *ast.ParenExpr:
+		return lastName(f.X)
+	}
+	return ""
+}
+
+func terminates(b *ast.BlockStmt) bool {
+	if b == nil || len(b.List) == 0 {
+		return false
+	}
+	switch s := b.List[len(b.List)-1].(type) {
+	case *ast.ReturnStmt:
+		return true
+	case *ast.BranchStmt:
+		return s.Tok == token.CONTINUE || s.Tok == token.BREAK || s.Tok == token.GOTO
+	case *ast.ExprStmt:
+		if c, ok := s.X.(*ast.CallExpr); ok {
+			if id, ok := c.Fun.(*ast.Ident); ok && id.Name == "panic" {
+				return true
+			}
+		}
+	}
+	return false
+}
+
+func (w *c16walk) block(b *ast.BlockStmt) {
+	if b == nil {
+		return
+	}
+	pushed := 0
+	for _, s := range b.List {
+		if neg := w.stmt(s); neg != "" {
+			w.guards = append(w.guards, neg)
+			pushed++
+		}
+	}
+	w.guards = w.guards[:len(w.guards)-pushed]
+}
+
+// stmt walks one statement; for an `if c { …; return }` without else it returns "!(c)", the condition under
+// which the rest of the enclosing block runs.
+func (w *c16walk) stmt(s ast.Stmt) string {
+	switch v := s.(type) {
+	case *ast.BlockStmt:
+		w.block(v)
+	case *ast.ExprStmt:
+		w.expr(v.X)
+	case *ast.AssignStmt:
+		w.assign(v)
+	case *ast.DeclStmt:
+		if gd, ok := v.Decl.(*ast.GenDecl); ok {
+			for _, sp := range gd.Specs {
+				if vs, ok := sp.(*ast.ValueSpec); ok && len(vs.Values) == len(vs.Names) {
+					for i := range vs.Names {
+						w.expr(vs.Values[i])
+						w.bindSingle(vs.Names[i].Name, vs.Values[i])
+					}
+				}
+			}
+		}
+	case *ast.IfStmt:
+		if v.Init != nil {
+			w.stmt(v.Init)
+		}
+		w.expr(v.Cond)
+		c := w.canon(v.Cond)
+		w.guards = append(w.guards, c)
+		w.block(v.Body)
+		w.guards = w.guards[:len(w.guards)-1]
+		neg := "!(" + c + ")"
+		if v.Else != nil {
+			w.guards = append(w.guards, neg)
+			w.stmt(v.Else)
+			w.guards = w.guards[:len(w.guards)-1]
+			return ""
+		}
+		if terminates(v.Body) {
+			return neg
+		}
+	case *ast.ForStmt:
+		if v.Init != nil {
+			w.stmt(v.Init)
+		}
+		if v.Cond != nil {
+			w.expr(v.Cond)
+		}
+		w.block(v.Body)
+		if v.Post != nil {
+			w.stmt(v.Post)
+		}
+	case *ast.RangeStmt:
+		w.expr(v.X)
+		w.nrange++
+		if id, ok := v.Key.(*ast.Ident); ok && id.Name != "_" {
+			w.cur()[id.Name] = fmt.Sprintf("rk%d", w.nrange)
+		}
+		if id, ok := v.Value.(*ast.Ident); ok && id.Name != "_" {
+			w.cur()[id.Name] = fmt.Sprintf("rv%d", w.nrange)
+		}
+		w.emit(ev{kind: "range", text: w.canon(v.X)})
+		w.block(v.Body)
+	case *ast.ReturnStmt:
+		var rs []string
+		for _, r := range v.Results {
+			n := len(w.evs)
+			w.expr(r)
+			if c, ok := r.(*ast.CallExpr); ok && w.inlinable(c) {
+				// the result of a helper that was walked in place: its own returns say what comes back
+				_ = n
+				rs = append(rs, "<inlined>")
+				continue
+			}
+			rs = append(rs, w.canon(r))
+		}
+		kind := "ret"
+		w.emit(ev{kind: kind, text: strings.Join(rs, ", ")})
+	case *ast.GoStmt:
+		w.goDefer("go", v.Call)
+	case *ast.DeferStmt:
+		w.goDefer("defer", v.Call)
+	case *ast.IncDecStmt:
+		w.emit(ev{kind: "store", text: w.canon(v.X) + v.Tok.String()})
+	case *ast.LabeledStmt:
+		return w.stmt(v.Stmt)
+	case *ast.SwitchStmt:
+		if v.Init != nil {
+			w.stmt(v.Init)
+		}
+		if v.Tag != nil {
+			w.expr(v.Tag)
+		}
+		for _, c := range v.Body.List {
+			cc := c.(*ast.CaseClause)
+			var cs []string
+			for _, e := range cc.List {
+				cs = append(cs, w.canon(e))
+			}
+			w.guards = append(w.guards, "case "+strings.Join(cs, ", "))
+			for _, st := range cc.Body {
+				w.stmt(st)
+			}
+			w.guards = w.guards[:len(w.guards)-1]
+		}
+	case *ast.TypeSwitchStmt:
+		for _, c := range v.Body.List {
+			for _, st := range c.(*ast.CaseClause).Body {
+				w.stmt(st)
+			}
+		}
+	case *ast.SelectStmt:
+		for _, c := range v.Body.List {
+			for _, st := range c.(*ast.CommClause).Body {
+				w.stmt(st)
+			}
+		}
+	}
+	return ""
+}
+
+func (w *c16walk) goDefer(kind string, c *ast.CallExpr) {
+	for _, a := range c.Args {
+		w.expr(a)
+	}
+	if fl, ok := c.Fun.(*ast.FuncLit); ok {
+		var args []string
+		for _, a := range c.Args {
+			args = append(args, w.canon(a))
+		}
+		w.emit(ev{kind: kind, callee: "func", text: "func(" + strings.Join(args, ", ") + ")"})
+		w.funcLit(fl, args)
+		return
+	}
+	callee := w.canon(c.Fun)
+	w.emit(ev{kind: kind, callee: callee, text: callee + "(" + w.args(c) + ")"})
+}
+
+func (w *c16walk) args(c *ast.CallExpr) string {
+	var as []string
+	for i, a := range c.Args {
+		if w.dialArgs > 0 && lastName(c.Fun) == "DialContext" && i >= w.dialArgs {
+			break
+		}
+		s := w.canon(a)
+		if c.Ellipsis != token.NoPos && i == len(c.Args)-1 {
+			s += "..."
+		}
+		as = append(as, s)
+	}
+	return strings.Join(as, ", ")
+}
+
+// funcLit walks the body of a function literal in the enclosing scope; its parameters are bound to the
+// given arguments (immediately invoked) or named c0, c1, ….
+func (w *c16walk) funcLit(fl *ast.FuncLit, args []string) {
+	i := 0
+	if fl.Type.Params != nil {
+		for _, p := range fl.Type.Params.List {
+			for _, n := range p.Names {
+				if i < len(args) {
+					w.cur()[n.Name] = args[i]
+				} else {
+					w.cur()[n.Name] = fmt.Sprintf("c%d", w.nclo)
+					w.nclo++
+				}
+				i++
+			}
+		}
+	}
+	w.closure++
+	w.block(fl.Body)
+	w.closure--
+}
+
+func (w *c16walk) bindSingle(name string, rhs ast.Expr) {
+	if name == "_" {
+		return
+	}
+	e := rhs
+	if u, ok := e.(*ast.UnaryExpr); ok && u.Op == token.AND {
+		e = u.X
+	}
+	switch v := e.(type) {
+	case *ast.CompositeLit:
+		w.cur()[name] = "lit#" + w.x.src(v.Type)
+		return
+	case *ast.CallExpr:
+		ln := lastName(v.Fun)
+		if r, ok := c16roles[ln]; ok {
+			w.cur()[name] = r
+			return
+		}
+		if ln != "" && !ast.IsExported(ln) {
+			if callee := w.x.anyFuncDecl(w.dir, ln); callee != nil && callee.Type.Results != nil && len(callee.Type.Results.List) == 1 {
+				rt := w.x.src(callee.Type.Results.List[0].Type)
+				if strings.HasPrefix(rt, "*") || (rt != "" && !ast.IsExported(rt) && !isBuiltinType(rt)) {
+					w.cur()[name] = "made#" + rt
+					return
+				}
+			}
+		}
+	case *ast.BinaryExpr:
+		w.cur()[name] = "(" + w.canon(rhs) + ")"
+		return
+	}
+	w.cur()[name] = w.canon(rhs)
+}
+
+func isBuiltinType(t string) bool {
+	switch t {
+	case "string", "bool", "int", "int64", "uint64", "error", "byte", "float64":
+		return true
+	}
+	return false
+}
+
+func (w *c16walk) assign(a *ast.AssignStmt) {
+	for _, r := range a.Rhs {
+		w.expr(r)
+	}
+	names := func() []string {
+		var ns []string
+		for _, l := range a.Lhs {
+			if id, ok := l.(*ast.Ident); ok {
+				ns = append(ns, id.Name)
+			} else {
+				ns = append(ns, "")
+			}
+		}
+		return ns
+	}
+	if a.Tok == token.DEFINE {
+		ns := names()
+		switch {
+		case len(a.Lhs) == len(a.Rhs):
+			// evaluate all right-hand sides before binding
+			vals := make([]func(), len(ns))
+			for i := range ns {
+				i := i
+				vals[i] = func() { w.bindSingle(ns[i], a.Rhs[i]) }
+			}
+			for _, f := range vals {
+				f()
+			}
+		case len(a.Rhs) == 1:
+			if c, ok := a.Rhs[0].(*ast.CallExpr); ok {
+				base := lastName(c.Fun)
+				if r, ok := c16roles[base]; ok {
+					for i, n := range ns {
+						if n == "" || n == "_" {
+							continue
+						}
+						if i == 0 {
+							w.cur()[n] = r
+						} else {
+							w.cur()[n] = r + "Err"
+						}
+					}
+					return
+				}
+				for i, n := range ns {
+					if n != "" && n != "_" {
+						w.cur()[n] = fmt.Sprintf("%s#%d", base, i)
+					}
+				}
+				return
+			}
+			txt := w.canon(a.Rhs[0])
+			for i, n := range ns {
+				if n == "" || n == "_" {
+					continue
+				}
+				if i == 0 {
+					w.cur()[n] = txt
+				} else {
+					w.cur()[n] = txt + "#ok"
+				}
+			}
+		}
+		return
+	}
+	// plain assignment: a store; a local keeps track of its new value
+	if len(a.Lhs) == len(a.Rhs) {
+		for i := range a.Lhs {
+			lhs, rhs := w.canonLHS(a.Lhs[i]), w.canon(a.Rhs[i])
+			w.emit(ev{kind: "store", text: lhs + " " + a.Tok.String() + " " + rhs})
+			if id, ok := a.Lhs[i].(*ast.Ident); ok && a.Tok == token.ASSIGN {
+				if _, known := w.cur()[id.Name]; known {
+					w.bindSingle(id.Name, a.Rhs[i])
+				}
+			}
+		}
+		return
+	}
+	var ls []string
+	for _, l := range a.Lhs {
+		ls = append(ls, w.canonLHS(l))
+	}
+	w.emit(ev{kind: "store", text: strings.Join(ls, ", ") + " " + a.Tok.String() + " " + w.canon(a.Rhs[0])})
+}
+
+// canonLHS: a plain identifier on the left keeps its own name when it is a named result or unknown.
+func (w *c16walk) canonLHS(e ast.Expr) string {
+	if id, ok := e.(*ast.Ident); ok {
+		if _, known := w.cur()[id.Name]; !known {
+			return id.Name
+		}
+	}
+	return w.canon(e)
+}
+
+func (w *c16walk) expr(e ast.Expr) {
+	switch v := e.(type) {
+	case nil:
+	case *ast.CallExpr:
+		w.call(v)
+	case *ast.FuncLit:
+		w.funcLit(v, nil)
+	case *ast.BinaryExpr:
+		w.expr(v.X)
+		w.expr(v.Y)
+	case *ast.UnaryExpr:
+		w.expr(v.X)
+	case *ast.ParenExpr:
+		w.expr(v.X)
+	case *ast.SelectorExpr:
+		w.expr(v.X)
+	case *ast.IndexExpr:
+		w.expr(v.X)
+		w.expr(v.Index)
+	case *ast.SliceExpr:
+		w.expr(v.X)
+	case *ast.StarExpr:
+		w.expr(v.X)
+	case *ast.TypeAssertExpr:
+		w.expr(v.X)
+	case *ast.KeyValueExpr:
+		w.expr(v.Value)
+	case *ast.CompositeLit:
+		var fs []string
+		for _, el := range v.Elts {
+			w.expr(el)
+			if kv, ok := el.(*ast.KeyValueExpr); ok {
+				fs = append(fs, w.x.src(kv.Key)+"="+w.canon(kv.Value))
+			} else {
+				fs = append(fs, w.canon(el))
+			}
+		}
+		sort.Strings(fs)
+		w.emit(ev{kind: "lit", text: "lit " + w.x.src(v.Type) + " {" + strings.Join(fs, "; ") + "}", node: v})
+	}
+}
+
+func (w *c16walk) call(c *ast.CallExpr) {
+	if fl, ok := c.Fun.(*ast.FuncLit); ok {
+		var args []string
+		for _, a := range c.Args {
+			w.expr(a)
+			args = append(args, w.canon(a))
+		}
+		w.funcLit(fl, args)
+		return
+	}
+	if sel, ok := c.Fun.(*ast.SelectorExpr); ok {
+		w.expr(sel.X)
+	}
+	for _, a := range c.Args {
+		w.expr(a)
+	}
+	name := lastName(c.Fun)
+	if name != "" && !ast.IsExported(name) && !w.onStack[name] && w.depth < 4 {
+		if callee := w.x.anyFuncDecl(w.dir, name); callee != nil && w.isPackageCall(c) {
+			sc := map[string]string{}
+			if callee.Recv != nil && len(callee.Recv.List) == 1 && len(callee.Recv.List[0].Names) == 1 {
+				if sel, ok := c.Fun.(*ast.SelectorExpr); ok {
+					sc[callee.Recv.List[0].Names[0].Name] = w.canon(sel.X)
+				}
+			}
+			i := 0
+			if callee.Type.Params != nil {
+				for _, p := range callee.Type.Params.List {
+					for _, n := range p.Names {
+						if i < len(c.Args) {
+							sc[n.Name] = w.canon(c.Args[i])
+						}
+						i++
+					}
+				}
+			}
+			w.scopes = append(w.scopes, sc)
+			w.onStack[name] = true
+			w.depth++
+			savedClosure := w.closure
+			w.block(callee.Body)
+			w.closure = savedClosure
+			w.depth--
+			delete(w.onStack, name)
+			w.scopes = w.scopes[:len(w.scopes)-1]
+			return
+		}
+	}
+	callee := w.canon(c.Fun)
+	w.emit(ev{kind: "call", callee: callee, text: callee + "(" + w.args(c) + ")"})
+}
+
+// inlinable: a call this walker follows into the callee's body.
+func (w *c16walk) inlinable(c *ast.CallExpr) bool {
+	name := lastName(c.Fun)
+	if name == "" || ast.IsExported(name) {
+		return false
+	}
+	if _, ok := c.Fun.(*ast.FuncLit); ok {
+		return false
+	}
+	return w.x.anyFuncDecl(w.dir, name) != nil
+}
+
+// isPackageCall: a plain identifier call, or a method call on a value (not pkg.Func of another package: those
+// are exported anyway).
+func (w *c16walk) isPackageCall(c *ast.CallExpr) bool {
+	switch c.Fun.(type) {
+	case *ast.Ident, *ast.SelectorExpr:
+		return true
+	}
+	return false
 }
